@@ -33,7 +33,12 @@ RULE = ("one case = (parser, accepted configuration, variant): parser = 1-5 leav
         "parser object with a HISTORY (earlier dumps incl. skip_default, an earlier parse, an earlier command line rejected part-way at its --cfg, then set_defaults() or a default config "
         "file changing a declared default; the configuration then often sets that key back to its OLD default) and are judged "
         "against the defaults in force at the end; subclass specs: 6 specs x 3 defaults x 8 variants; quick: systematic single-leaf sweep of the pool over every str-admitting type and format, 9 dataclass-valued configurations x 8 variants, and of "
-        "every str-admitting type and format + 900 random cases, thorough: + 9000; non-trivial = the configuration was "
+        "every str-admitting type and format + 900 random cases, thorough: + 9000; round 6: leaves with nargs='+' (str/int/float/bool/Enum "
+        "elements; a list at value level), parsers with SUBCOMMANDS (the first-level group `fit` is a subcommand with its own parser and --cfg "
+        "next to a second subcommand; required or optional; dumped / saved by the top-level parser, --print_config before the subcommand or "
+        "inside it and re-fed to the subcommand's --cfg; 12% of the random cases + a sweep over every variant), parser.dump_header comment "
+        "lines (15% of the YAML cases, lines that look like YAML), Dict-valued leaves one to three groups deep (and inside a subcommand) sharing "
+        "entries with their default under skip_default, str values spelled like the default of another Union member; non-trivial = the configuration was "
         "accepted and has a non-None leaf; distinct = distinct (declaration, configuration, variant)")
 TRUSTED = [
     "Coq 8.16.1 kernel + vm_compute",
@@ -57,6 +62,9 @@ ASSUMPTIONS = [
     "Python set but a single one after any reload (float identity, not jsonargparse); NaN = NaN in the comparison of configurations",
     "a parser's answers do not depend on what was done with the parser object before: a case with a history is judged by the "
     "same stateless model, given the declared defaults in force when the configuration is parsed",
+    "a leaf declared with nargs='+' and type T is a List[T] at value level (each element checked and serialised on its own; the tie "
+    "compares per case); a subcommand's options are leaves under the dotted prefix of its name; the configuration always chooses the "
+    "subcommand; the `subcommand` key itself is compared by the runner (it has to be, after the re-parse, what the accepted configuration chose)",
     "subclass-typed arguments: at a leaf or below Optional (prev_val reaches them), constructor parameters of scalar types, "
     "declared default None or a spec without dict_kwargs; class_path is compared as the parser normalises it",
 ]
@@ -64,7 +72,8 @@ EXHAUSTIVE = {"quick": False, "thorough": False}
 FINDING_CLASSES = {1: "save-skip-none-null-over-default",   # class 2 (skip-default-trims-dict-leaf) repaired: /repo d576475
                    3: "skip-default-eq-conflates-types", 4: "json-nonfinite-float", 5: "unprintable-str",
                    6: "comments-reemit", 7: "enum-member-null", 8: "default-not-normalised",
-                   12: "skip-default-prune-vs-carry-over"}   # 9, 10 repaired: /repo 2b39397 (fx_subclass_trim = true)
+                   12: "skip-default-prune-vs-carry-over",
+                   13: "skip-default-subcommand-crash", 14: "empty-subcommand-not-reselected"}   # 9, 10 repaired: /repo 2b39397 (fx_subclass_trim = true)
 # class 11 (skip_default pruned the init_args of a subclass spec) is outside the proved statement but NOT a finding: a
 # failure there is reported as a violation
 
@@ -78,7 +87,7 @@ LOOKALIKE = ["1e3", "1E5", "+1e3", "-1e-3", "1_0e1", "1_000", "._", ".5", "5.", 
              "2001-01-01 10:00:00", "2001-01-01T10:00:00Z", "<<", "=", "!x", "!!str a", "&a", "*a", "123", "-7", "0",
              "1e", "e3", "1e+", "١٢٣", "１２３", "1 000", "0.1", "00.1", "1.e3", "1.e+3", "+.5", "0_", "0x", "0b", "1__2"]
 SYNTAX = [" lead", "trail ", " ", "a: b", "a:b", "a #b", "#a", "a#b", "- a", "-", "--", "---", "...", "--- a", "a\nb", "a\n",
-          "\nb", "a\n\nb", "a\n b", " a\nb", "\ta", "a\tb", "a\t", "[1, 2]", "{a: 1}", "[a", "{a", "a]", "a}", '"q"', "'q'",
+          "\nb", "a\n\nb", "a\n b", " a\nb", "\ta", "a\tb", "a\t", "[1, 2]", "{a: 1}", "{a, b}", "{a}", "[a", "{a", "a]", "a}", '"q"', "'q'",
           "it's", 'a"b', "a\\b", "\\", "%a", "@a", "`a", "|", ">", "|-", "? a", "?", ": a", ":", "a:", "a,b", ",", "key: [1]",
           "é", "日本", "😀", "\x1b", "\x00", "\r", "a\rb", "\x0c", " ", "a b", "\xa0", "﻿", "a﻿b", "a b",
           "hello world", "a  b", "a" * 100, ("word " * 30).strip(), "x" * 130 + " y", "class_path"]
@@ -208,6 +217,8 @@ def gen_value(rng, t):
         return gen_value(rng, mem)
     if k == "list":
         return [gen_value(rng, t[1]) for _ in range(rng.randint(0, 3))]
+    if k == "nargs":
+        return [gen_value(rng, t[1]) for _ in range(rng.randint(1, 3))]
     if k == "dict":
         d = {}
         for _ in range(rng.randint(0, 3)):
@@ -284,6 +295,12 @@ def nearby(rng, t, d):
             return {"class_path": cp, "init_args": ia}
         other = rng.choice([c for c, _ in SUBCLASSES["Base"] if c != cp])
         return {"class_path": other}
+    if isinstance(t, list) and t[0] == "union" and "str" in t[1] and rng.random() < 0.4:
+        # a str spelled like the default of another type ('1' over 1, '1.0' over 1.0, 'True' over True)
+        if isinstance(d, dict) and "$f" in d:
+            return d["$f"]
+        if isinstance(d, (bool, int)):
+            return str(d)
     if isinstance(d, dict) and "$f" in d:
         x = float(d["$f"])
         if abs(x) < 1e15 and x == int(x) and rng.random() < 0.7:
@@ -382,23 +399,44 @@ def set_path(tree, path, node):
     cur.append([path[-1], node])
 
 
-def make_case(rng, leaves, variant):
-    """leaves: [(dotted key, type, default, value or ABSENT)]"""
-    decl, obj, argv = [], {}, []
+def make_case(rng, leaves, variant, sub=None):
+    """leaves: [(dotted key, type, default, value or ABSENT)]; type ["nargs", T] = add_argument(type=T, nargs='+'); sub = the
+    name of the first-level group that is a SUBCOMMAND (its own parser; command line: top-level options, sub, its options)"""
+    decl, obj, argv, sub_argv = [], {}, [], []
+    has_nargs = False
     for key, t, d, v in leaves:
-        set_path(decl, key.split("."), {"ty": t, "def": d})
+        if isinstance(t, list) and t[0] == "nargs":
+            has_nargs = True
+            set_path(decl, key.split("."), {"ty": t[1], "def": d, "nargs": "+"})
+        else:
+            set_path(decl, key.split("."), {"ty": t, "def": d})
         if v is not ABSENT:
             cur = obj
             parts = key.split(".")
             for p in parts[:-1]:
                 cur = cur.setdefault(p, {})
             cur[parts[-1]] = v
-            argv.append("--%s=%s" % (key, to_argv_text(v)))
+            if sub and parts[0] == sub:
+                sub_argv.append("--%s=%s" % (".".join(parts[1:]), to_argv_text(v)))
+            else:
+                argv.append("--%s=%s" % (key, to_argv_text(v)))
     case = {"decl": decl, "variant": variant}
-    if variant["kind"] == "print_config" or rng.random() < 0.25:
+    if sub:
+        for name, node in decl:
+            if name == sub:
+                node["sub"] = True
+        if not any(name == sub for name, _ in decl):
+            decl.append([sub, {"grp": [], "sub": True}])
+        case["sub"] = sub
+        argv = argv + [sub] + sub_argv
+        obj.setdefault(sub, {})
+        obj["subcommand"] = sub        # the configuration always chooses the subcommand
+    if (variant["kind"] == "print_config" or rng.random() < 0.25) and not has_nargs:
         case["argv"] = argv
     else:
         case["obj"] = obj
+    if variant.get("format") == "yaml" and rng.random() < 0.15:      # parser.dump_header: comment lines in front of the YAML text
+        case["header"] = rng.choice([["generated file"], ["a: 1", "- x", ""], ["--- !!str", "'"], ["x # y", "%YAML 1.1"]])
     return case
 
 
@@ -427,9 +465,17 @@ def random_case(rng):
             key = names[i]
         keys.append(key)
     variant = pick_variant(rng)
+    sub = None
+    if rng.random() < 0.12:       # the first-level group `fit` is a SUBCOMMAND with its own parser
+        sub = "fit"
+        keys = [("fit." + k if rng.random() < 0.7 else k) for k in keys]
+        if variant["kind"] == "print_config":     # printed by the subcommand's parser (its part only) or by the top-level parser
+            variant["pc_at"] = "sub" if all(k.startswith("fit.") for k in keys) and rng.random() < 0.6 else "top"
     leaves = []
     for key in keys:
         t = no_bare_dc(gen_type(rng))
+        if rng.random() < 0.08 and variant["kind"] != "print_config":
+            t = ["nargs", rng.choice(["str", "int", "float", "bool", "str", ["enum", "Color"], ["enum", "Sw"]])]
         r = rng.random()
         d = None if r < 0.3 or has_dc(t) else gen_value(rng, t)
         if has_sub(t):            # a spec as the parser itself would hold it: full class_path, no dict_kwargs
@@ -450,12 +496,14 @@ def random_case(rng):
             v = gen_value(rng, t)
         leaves.append((key, t, d, v))
     hist = None
-    if rng.random() < 0.25:
+    if rng.random() < 0.25 and not sub:
         hist = gen_history(rng, leaves, variant)
         changed = [k for st in hist if st["op"] == "set_defaults" for k, _ in st["values"]]
         if changed and rng.random() < 0.7:      # the configuration sets the key back to its OLD default
             leaves = [(k, t, d, d if k in changed and d is not None else v) for k, t, d, v in leaves]
-    case = make_case(rng, leaves, variant)
+    case = make_case(rng, leaves, variant, sub)
+    if sub and rng.random() < 0.25:
+        case["sub_required"] = False
     if hist:
         case["history"] = hist
     return case
@@ -623,6 +671,48 @@ def sweep_cases(rng, tier):
     cases.append(make_case(rng, [("m", ["sub", "Base"], {"class_path": "__main__.Sub", "init_args": {"b": 3, "name": "n"}},
                                   {"class_path": "__main__.Base", "init_args": {"a": 10, "name": None}})],
                            {"kind": "dump", "format": "yaml", "skip_none": False, "skip_default": True}))
+    # subcommands: top-level options + the options of the chosen subcommand (nested group inside), every variant, --print_config
+    # before the subcommand (whole configuration) and inside it (its part, re-fed to the subcommand's own --cfg)
+    for var in keep + [{"kind": "dump", "format": "json", "skip_none": False, "skip_default": True}]:
+        for req in (True, False):
+            lv = [("top", "int", 1, 2), ("fit.x", ["opt", "int"], 3, rng.choice([5, None, 3])), ("fit.g.y", "str", "a", rng.choice(["1e3", "null", "a"]))]
+            v = dict(var)
+            if v["kind"] == "print_config":
+                v["pc_at"] = "top"
+            c = make_case(rng, lv, v, "fit")
+            c["sub_required"] = req
+            cases.append(c)
+        if var["kind"] == "print_config":
+            cases.append(make_case(rng, [("fit.x", ["opt", "int"], 3, 5), ("fit.l", ["list", "str"], [], ["yes", "1:30"])], dict(var, pc_at="sub"), "fit"))
+    # Dict-valued leaves inside groups (one, two, three levels deep; also inside a subcommand) whose value shares entries with
+    # the declared default: skip_default has to keep or drop the value as a whole wherever the key lives
+    sdvars = [{"kind": "dump", "format": "yaml", "skip_none": False, "skip_default": True},
+              {"kind": "dump", "format": "json", "skip_none": False, "skip_default": True},
+              {"kind": "print_config", "format": "yaml", "flags": "skip_default"}]
+    for key in ("d", "g.d", "g.grp.d", "model.g.m.d"):
+        for t, d, v in [(["dict", "int"], {"a": 1, "b": 3}, {"a": 1, "b": 2}), (["dict", "str"], {"a": "x", "b": "1e3"}, {"a": "x"}),
+                        (["opt", ["dict", ["list", "int"]]], {"a": [1], "b": []}, {"a": [1], "b": [2], "c": []}),
+                        (["dict", ["dict", "int"]], {"k": {"a": 1, "b": 2}}, {"k": {"a": 1, "b": 5}}),
+                        (["dict_int", "int"], {"$d": [[1, 1], [2, 2]]}, {"$d": [[1, 1], [2, 3]]})]:
+            for var in sdvars:
+                cases.append(make_case(rng, [(key, t, d, v), ("g.n" if key != "g.d" else "n", "int", 1, 2)], dict(var)))
+    for var in sdvars[:2]:
+        c = make_case(rng, [("fit.g.d", ["dict", "int"], {"a": 1, "b": 3}, {"a": 1, "b": 2}), ("top", "int", 1, 1)], dict(var), "fit")
+        c["sub_required"] = False
+        cases.append(c)
+    # a str spelled like the declared default of another member type: skip_default must keep it
+    for t, d, v in [(["union", ["str", "int"]], 1, "1"), (["union", ["str", "float"]], {"$f": "1.0"}, "1.0"),
+                    (["union", ["str", "bool"]], True, "True"), (["union", ["str", "int"]], 17, "17")]:
+        for var in sdvars:
+            cases.append(make_case(rng, [("u", t, d, v), ("n", "int", 1, 2)], dict(var)))
+    # nargs='+': the action holds a list, each element checked and serialised on its own
+    for t, d, v in [("str", None, ["1e3", "[1, 2]", "null", "a: b"]), ("int", [1], [2, 3]), ("float", None, [{"$f": "1e16"}, {"$f": "0.5"}]),
+                    ("bool", [True], [False, True]), ("str", ["a"], ["a"]),
+                    (["enum", "Color"], None, [{"$e": ["Color", "RED"]}, {"$e": ["Color", "BLUE"]}]),
+                    (["enum", "Sw"], [{"$e": ["Sw", "on"]}], [{"$e": ["Sw", "yes"]}, {"$e": ["Sw", "off"]}])]:
+        for var in keep:
+            if var["kind"] != "print_config":
+                cases.append(make_case(rng, [("n", ["nargs", t], d, v), ("seed", ["opt", "int"], 7, 3)], dict(var)))
     # histories: the same parser object dumped (skip_default) before its defaults change; the configuration then sets the OLD default
     for t, d_old, d_new in [("float", {"$f": "0.1"}, {"$f": "0.5"}), ("str", "a", "1e3"), (["opt", "int"], 5, None),
                             (["list", "str"], ["x"], []), (["dict", "int"], {"a": 1}, {"a": 2})]:
@@ -731,7 +821,7 @@ def g_ty(t):
         return "(CUnion [%s; CNone])" % g_ty(t[1])
     if k == "union":
         return "(CUnion %s)" % g_list([g_ty(x) for x in t[1]], "cty")
-    if k == "list":
+    if k in ("list", "nargs"):
         return "(CList %s)" % g_ty(t[1])
     if k == "dict":
         return "(CDict false %s)" % g_ty(t[1])
@@ -779,7 +869,7 @@ def variant_flags(v):
 
 
 EMPTY_TERM = ("{| c_leaves := []; c_var := {| vr_fmt := FYaml; vr_skip_none := false; vr_skip_default := false; vr_comments := false |}; "
-              "c_strs := []; c_floats := []; c_dumped := Some []; c_reloaded := Some []; c_out := Some []; c_after := None |}")
+              "c_strs := []; c_floats := []; c_dumped := Some []; c_reloaded := Some []; c_out := Some []; c_after := None; c_req_sub := false; c_sub := None |}")
 
 
 def accepted(obs):
@@ -793,6 +883,18 @@ def per_leaf(keys, flat, extra):
     if any(k not in keys for k in d):
         return "None"
     return "(Some %s)" % g_list(["(Some %s)" % g_val(d[k]) if k in d else "None" for k in keys], "(option val)")
+
+
+def req_sub(case):
+    """the serialisation is done by a parser that has a REQUIRED subcommand (not: --print_config inside the subcommand)"""
+    v = case["variant"]
+    return bool(case.get("sub")) and case.get("sub_required", True) and not (v["kind"] == "print_config" and v.get("pc_at") != "top")
+
+
+def top_sub(case):
+    """the serialisation is done by the top-level parser of a parser with subcommands"""
+    v = case["variant"]
+    return bool(case.get("sub")) and not (v["kind"] == "print_config" and v.get("pc_at") != "top")
 
 
 def term(case, obs):
@@ -834,8 +936,9 @@ def term(case, obs):
     else:
         after = "(Some [])"      # the object no longer has the declared leaves: differs from every non-empty configuration
     return ("{| c_leaves := %s; c_var := {| vr_fmt := %s; vr_skip_none := %s; vr_skip_default := %s; vr_comments := %s |}; c_strs := %s; "
-            "c_floats := %s; c_dumped := %s; c_reloaded := %s; c_out := %s; c_after := %s |}"
-            % (leaves, fmt, g_bool(sn), g_bool(sd), g_bool(cm), strs, floats, dumped, reloaded, out, after))
+            "c_floats := %s; c_dumped := %s; c_reloaded := %s; c_out := %s; c_after := %s; c_req_sub := %s; c_sub := %s |}"
+            % (leaves, fmt, g_bool(sn), g_bool(sd), g_bool(cm), strs, floats, dumped, reloaded, out, after, g_bool(req_sub(case)),
+               "(Some %s)" % g_str(case["sub"] + ".") if top_sub(case) and obs.get("sub_chosen") == case["sub"] else "None"))
 
 
 def nontrivial_key(case, obs):
@@ -882,15 +985,16 @@ def shrink(case):
                 for name, node in d:
                     if "grp" in node:
                         sub = drop(node["grp"], prefix + name + ".")
-                        if sub:
-                            out.append([name, {"grp": sub}])
+                        if sub or node.get("sub"):
+                            out.append([name, dict(node, grp=sub)])
                     elif prefix + name != key:
                         out.append([name, node])
                 return out
 
             c = dict(case, decl=drop(decl))
             if "argv" in case:
-                c["argv"] = [a for a in case["argv"] if not a.startswith("--%s=" % key)]
+                k2 = key[len(case["sub"]) + 1:] if case.get("sub") and key.startswith(case["sub"] + ".") else key
+                c["argv"] = [a for a in case["argv"] if not a.startswith("--%s=" % k2)]
             else:
                 obj = json.loads(json.dumps(case["obj"]))
                 cur = obj
@@ -1000,18 +1104,24 @@ META = {
                   "every parser (typed leaves under nested groups), configuration and variant (yaml/json, nulls kept or "
                   "dropped, skip_default; i.e. dump, print_config, save) inside the guard, if each leaf value survives its own "
                   "serialise/parse pair then dump -> text -> parse returns the configuration value for value and type for type. "
-                  "Six _refuted witnesses show the unguarded statement false of the faithful model; two more are regression witnesses about the rule before /repo 2b39397. Exercised by the "
-                  "correspondence only: that each accepted leaf value survives serialise/parse (leaf_stable is a premise of "
-                  "(P), evaluated per case over the whole type grammar incl. Union/Literal/Enum/Set/Dict[int]/dataclass-typed values/subclass specs with dict_kwargs), the real "
-                  "dump / --print_config / save+parse_path paths, nested groups, and the model itself (data handed to the "
+                  "(P') C01_dump_parse_roundtrip_simple (round 6) - for parsers of the container grammar (str/int/float/bool, List, Dict[str,.], "
+                  "Tuple[..], Tuple[.,...] nested at will, Optional[T] for T not str) per-leaf stability is PROVED by structural induction on the "
+                  "type for any loader oracle and any declared default (simple_rt / leaf_stable_simple), so inside the guard the round trip "
+                  "holds with NO premise about the leaves; that the real parser hands out values of these types (wt) is checked per case by the "
+                  "judge (simple_tie). C01_dump_parse_roundtrip_subcommands - (P) for a dump taken by the top-level parser of a parser with "
+                  "subcommands (skip_default does not reach the subcommand's options; classes 13/14). "
+                  "Eight _refuted witnesses show the unguarded statement false of the faithful model; two more are regression witnesses about the rule before /repo 2b39397. Exercised by the "
+                  "correspondence only: that each accepted leaf value survives serialise/parse OUTSIDE the container grammar of (P') (leaf_stable is a premise of "
+                  "(P), evaluated per case over the rest of the type grammar: str under Optional/Union, general Union/Literal/Enum/Set/Dict[int]/dataclass-typed values/subclass specs with dict_kwargs), the real "
+                  "dump / --print_config / save+parse_path paths, nested groups, subcommands, nargs lists, dump_header, and the model itself (data handed to the "
                   "dumper, loader's view of the text, re-parsed configuration, every written str and float against PyYAML).",
     "level_note": "Partial: premises of (V)/(P) are Python's int/float <-> text conversions (int_text_ok, yfloat_text_ok, "
                   "jfloat_text_ok; checked per observed float by the judge) and per-leaf stability; PyYAML's emitter/scanner "
                   "are trusted for document structure and for the characters of a scalar (known false for U+0085 and, from "
                   "JSON text, C1 controls / U+FFFE / U+FFFF / U+2028-9: finding unprintable-str). yaml_comments output "
-                  "(re-emitted by ruyaml) is not modelled (finding comments-reemit). Eight open findings are guarded by class (Model/C01Guard.v classes 1,3-8,12; 2, 9, 10 repaired in /repo); class 11 (skip_default pruned a subclass spec's init_args) is outside the proved statement without being a finding: failures there are violations. Histories on one parser object (dump, parse, set_defaults, default config file) are exercised by the correspondence only "
-                  "(Model/C01Guard.v) and reported as KNOWN-FINDING. parser_mode yaml only; no dataclasses expanded as groups, no subclass specs inside containers or with nested class parameters, "
-                  "subcommands, links, toml/jsonnet; a dataclass directly as the type of a leaf (behaves as an expanded group) is outside the space. No axioms (Print Assumptions: closed under the global context).",
+                  "(re-emitted by ruyaml) is not modelled (finding comments-reemit). Ten open findings are guarded by class (Model/C01Guard.v classes 1,3-8,12,13,14; 2, 9, 10 repaired in /repo; 13 = dump(skip_default) of a parser with a required subcommand raises, 14 = a dump holding none of the chosen subcommand's options is not re-parsed as choosing it); class 11 (skip_default pruned a subclass spec's init_args) is outside the proved statement without being a finding: failures there are violations. Histories on one parser object (dump, parse, set_defaults, default config file) are exercised by the correspondence only "
+                  "(Model/C01Guard.v) and reported as KNOWN-FINDING. parser_mode yaml only; one level of subcommands (no nested subcommands); no dataclasses expanded as groups, no subclass specs inside containers or with nested class parameters, "
+                  "no registered/restricted types (PositiveInt, timedelta, Path...), no multifile save with __path__ metas, links, toml/jsonnet; a dataclass directly as the type of a leaf (behaves as an expanded group) is outside the space. No axioms (Print Assumptions: closed under the global context).",
     "technique": "Rocq proof: verified regex-inclusion certificates over regenerated resolver tables + structural induction on "
                  "values and leaf lists; correspondence of a hand-written value-level model with real dump/print_config/save "
                  "round trips, judged inside Coq",
